@@ -202,6 +202,29 @@ def main():
                     R.count('writer:crop')
                 except Exception as e:
                     R.notes.append(f'crop composition skipped ({type(e).__name__}: {str(e)[:80]})') if len(R.notes) < 5 else None
+        # ---------------- NumPy conversions WITHOUT a header dict, one after the other: the header and the generated inline /
+        # crossline arrays of each file are those of ITS OWN cube (explicit axes first, then the documented default axes 0,1,2,..)
+        n_il, n_xl, ns = rng.choice([(5, 6, 9), (4, 7, 5)])
+        for name, kw, w_il, w_xl in (('explicit axes', dict(ilines=np.arange(1000, 1000 + 2 * n_il, 2), xlines=np.arange(500, 500 + 3 * n_xl, 3)),
+                                      list(range(1000, 1000 + 2 * n_il, 2)), list(range(500, 500 + 3 * n_xl, 3))),
+                                     ('default axes', {}, list(range(n_il)), list(range(n_xl)))):
+            idx += 1
+            p = os.path.join(d, f'd{idx}.sgz')
+            inp = {'writer': 'numpy, no header dict, ' + name, 'shape': [n_il, n_xl, ns]}
+            try:
+                src = rnd_cube(rng, (n_il, n_xl, ns))
+                with NumpyConverter(src, **kw) as c:
+                    quiet(c.run, p, bits_per_voxel=8)
+            except Exception as e:
+                R.violation('oracle', inp, f'valid input: writer raised {type(e).__name__}: {e}')
+                continue
+            hs = {189: np.repeat(np.array(w_il, dtype=np.int32)[:, None], n_xl, 1).reshape(-1), 193: np.repeat(np.array(w_xl, dtype=np.int32)[None, :], n_il, 0).reshape(-1)}
+            check_file(p, inp, src, (n_il, n_xl, ns), lambda key, hs=hs: hs.get(key))
+            with SgzReader(p) as r:
+                if [int(v) for v in r.ilines] != w_il or [int(v) for v in r.xlines] != w_xl:
+                    R.violation('oracle', inp, f'the header states axes {[int(v) for v in r.ilines][:3]}.. / {[int(v) for v in r.xlines][:3]}.., the cube has {w_il[:3]}.. / {w_xl[:3]}..')
+            R.case(('numpy-defaults', name, n_il, n_xl, ns), sample=inp)
+            R.count('writer:numpy (no header dict)')
         # ---------------- SEG-Y converted with an inline/crossline WINDOW: the container must be that of the sub-cube (header
         # arrays of 4 bytes per WINDOW trace).  Trace counts of source and window fall into different 512-byte strides.
         wcases = [((12, 12), (2, 10, 0, 8)), ((10, 6), (3, 10, 0, 6)), ((9, 15), (0, 9, 3, 12)), ((16, 16), (1, 9, 4, 16))]     # (the 2nd: an inline-only window, with reduce_iops)
